@@ -66,7 +66,7 @@ EXPLANATION = ("Theorems (every number of ballots / candidates / blocs): countin
                "sum of the per-bloc profiles; an accepted Plackett-Luce draw is duplicate-free and inside the positive "
                "support, an accepted apportionment adds up to N.")
 
-N_QUICK, N_THOROUGH = 2400, 28800
+N_QUICK, N_THOROUGH = 2400, 86400
 
 _TMP = None
 
